@@ -15,9 +15,9 @@ vars == <<alive, tgt, own, parent, children, zlast>>
 View == <<alive, tgt, own, parent, children>>
 
 Node == Plain \cup Links
-Keys == {"foo", "bar", "name"}
+Keys == {"foo", "_bar", "name"}     \* an ordinary, an underscore-prefixed and a class-defined attribute name
 Vals == {"1", "2"}
-KwSets == {<<>>, << <<"foo", "1">> >>, << <<"bar", "2">>, <<"foo", "2">> >>}
+KwSets == {<<>>, << <<"foo", "1">> >>, << <<"_bar", "2">>, <<"foo", "2">> >>}
 Empty == [x \in {} |-> "1"]
 
 Init == /\ alive = Plain
